@@ -112,6 +112,26 @@ func main() {
 			}
 		}
 	}
+	// olla engine: the preferred endpoint's breaker was opened by a request history and its timeout has elapsed, so this
+	// request is the half-open probe; the probe dies at every fault point
+	if vlib.ReplayPath() == "" {
+		probeKinds := append(append([]string{"ok"}, scen.PreKinds...), scen.PostKinds...)
+		for _, k := range probeKinds {
+			if k == "dnsfail" {
+				continue
+			}
+			for _, two := range []bool{false, true} {
+				sc := &scen.Scenario{Engine: "olla", Balancer: "priority", Profile: "auto", Method: "POST", Path: "/olla/proxy/v1/chat/completions", ReqBody: `{"probe":true}`}
+				e := mkEP(0, k, r, r.Bool(), "application/json")
+				e.HalfOpen = true
+				sc.EPs = append(sc.EPs, e)
+				if two {
+					sc.EPs = append(sc.EPs, mkEP(1, "ok", r, false, "application/json"))
+				}
+				scs = append(scs, sc)
+			}
+		}
+	}
 	// pauses: shorter than the read timeout (must not be cut; both engines) and between 1x and 2x the
 	// read timeout followed by a resume (sherpa cuts the stream at the timeout; what was relayed stays a prefix)
 	if vlib.ReplayPath() == "" {
